@@ -1,11 +1,1101 @@
-// Package c10 is the correspondence/oracle harness for property C10.
+// Package c10: page selection and option chaining are algebraic; handles are released.
 package c10
 
-import "verifharness/hx"
+import (
+	"encoding/json"
+	"fmt"
+	"os"
+	"path/filepath"
+	"regexp"
+	"runtime"
+	"runtime/debug"
+	"sort"
+	"strconv"
+	"strings"
+
+	"github.com/tsawler/tabula"
+	"github.com/tsawler/tabula/model"
+	"github.com/tsawler/tabula/rag"
+	"github.com/tsawler/tabula/reader"
+	"github.com/tsawler/tabula/text"
+
+	"verifharness/hx"
+)
 
 func init() { hx.Register("C10", Run, Replay) }
 
-// Run is not built yet for this property.
-func Run(c *hx.Ctx) { c.Note("C10: harness not built") }
+// ---- environment ----------------------------------------------------------------------
 
-func Replay(c *hx.Ctx, kase map[string]interface{}) {}
+type env struct {
+	extra int
+	c     *hx.Ctx
+	dir   string
+	files map[string]string
+	refT  map[string][]string   // doc+flags -> per-page Text (index p-1)
+	refF  map[string][][]string // doc+flags -> per-page fragment strings
+}
+
+func newEnv(c *hx.Ctx) *env {
+	dir := filepath.Join(c.OutDir, "files")
+	os.RemoveAll(dir)
+	os.MkdirAll(dir, 0o755)
+	return &env{c: c, dir: dir, files: map[string]string{}, refT: map[string][]string{}, refF: map[string][][]string{}}
+}
+
+// path writes the document (once) and returns its file name.
+func (e *env) path(d docParams) string {
+	k := d.key()
+	if p, ok := e.files[k]; ok {
+		return p
+	}
+	p := filepath.Join(e.dir, fmt.Sprintf("d%04d.pdf", len(e.files)))
+	if d.Kind == "missing" {
+		p = filepath.Join(e.dir, fmt.Sprintf("absent%04d.pdf", len(e.files)))
+	} else if err := os.WriteFile(p, d.bytes(), 0o644); err != nil {
+		panic(err)
+	}
+	e.files[k] = p
+	return p
+}
+
+// fdCount counts the entries of /proc/self/fd (the directory handle used for
+// the listing is part of every count, so differences are exact).
+func fdCount() int {
+	ents, err := os.ReadDir("/proc/self/fd")
+	if err != nil {
+		return -1
+	}
+	return len(ents)
+}
+
+// ---- adapter ---------------------------------------------------------------------------
+
+func applyCall(x *tabula.Extractor, c call) *tabula.Extractor {
+	switch c.K {
+	case "P":
+		return x.Pages(c.A...)
+	case "R":
+		return x.PageRange(c.A[0], c.A[1])
+	case "H":
+		return x.ExcludeHeaders()
+	case "F":
+		return x.ExcludeFooters()
+	case "B":
+		return x.ExcludeHeadersAndFooters()
+	case "J":
+		return x.JoinParagraphs()
+	case "C":
+		return x.ByColumn()
+	case "L":
+		return x.PreserveLayout()
+	}
+	panic("unknown call " + c.K)
+}
+
+func chainExt(x *tabula.Extractor, cs []call) *tabula.Extractor {
+	for _, c := range cs {
+		x = applyCall(x, c)
+	}
+	return x
+}
+
+type outcome struct {
+	err    error
+	panic  string
+	text   string
+	frags  []text.TextFragment
+	doc    *model.Document
+	chunks *rag.ChunkCollection
+	count  int
+	flag   bool
+}
+
+func (o outcome) failed() bool { return o.err != nil || o.panic != "" }
+
+// runOp invokes one terminal / non-terminal / close operation.
+func runOp(x *tabula.Extractor, k string) (o outcome) {
+	o.panic = hx.Safe(func() {
+		switch k {
+		case "t":
+			o.text, _, o.err = x.Text()
+		case "g":
+			o.frags, _, o.err = x.Fragments()
+		case "u":
+			o.doc, _, o.err = x.Document()
+		case "k":
+			o.chunks, _, o.err = x.Chunks()
+		case "c":
+			o.count, o.err = x.PageCount()
+		case "m":
+			o.flag, o.err = x.IsMultiColumn()
+		case "x":
+			o.err = x.Close()
+		default:
+			panic("unknown op " + k)
+		}
+	})
+	return o
+}
+
+// oneShot runs a terminal operation on a freshly built chain and checks that it
+// leaves the descriptor count where it was (success or failure).
+func (e *env) oneShot(x *tabula.Extractor, k string, kase interface{}) outcome {
+	before := fdCount()
+	o := runOp(x, k)
+	after := fdCount()
+	e.c.Check("C10/fd-leak", after == before, kase, func() string {
+		return fmt.Sprintf("one-shot terminal operation %q (error: %v): %d descriptors before, %d after", k, o.err, before, after)
+	})
+	return o
+}
+
+// settle runs the collector between cases, so that no collection (and no
+// finalizer closing a leaked file) happens inside a measured window.
+func settle() {
+	runtime.GC()
+	runtime.Gosched()
+}
+
+// ---- reading results back ----------------------------------------------------------------
+
+var tokRe = regexp.MustCompile(`PAGE-(\d+)-(t[0-9a-f]+)-L(\d+)`)
+
+type tok struct{ p, j int }
+
+func tokensIn(s, tag string) []tok {
+	var out []tok
+	for _, m := range tokRe.FindAllStringSubmatch(s, -1) {
+		if m[2] != tag {
+			out = append(out, tok{-1, -1})
+			continue
+		}
+		p, _ := strconv.Atoi(m[1])
+		j, _ := strconv.Atoi(m[3])
+		out = append(out, tok{p, j})
+	}
+	return out
+}
+
+// expectedTokens: every body line of every listed non-blank page, in order.
+func expectedTokens(d docParams, pages []int) []tok {
+	var out []tok
+	for _, p := range pages {
+		if d.isBlank(p) {
+			continue
+		}
+		for j := 0; j < d.Lines; j++ {
+			out = append(out, tok{p, j})
+		}
+	}
+	return out
+}
+
+func sameToks(a, b []tok) bool {
+	if len(a) != len(b) {
+		return false
+	}
+	for i := range a {
+		if a[i] != b[i] {
+			return false
+		}
+	}
+	return true
+}
+
+// pagesOfTokens groups a token stream into whole pages (0-based indices);
+// ok=false when the stream is not a sequence of complete pages.
+func pagesOfTokens(d docParams, ts []tok) ([]int, bool) {
+	var out []int
+	for i := 0; i < len(ts); i += d.Lines {
+		if i+d.Lines > len(ts) {
+			return nil, false
+		}
+		for j := 0; j < d.Lines; j++ {
+			if ts[i+j].p != ts[i].p || ts[i+j].j != j {
+				return nil, false
+			}
+		}
+		out = append(out, ts[i].p-1)
+	}
+	return out, true
+}
+
+func intsStr(xs []int) string {
+	if len(xs) == 0 {
+		return "-"
+	}
+	ys := make([]string, len(xs))
+	for i, x := range xs {
+		ys[i] = strconv.Itoa(x)
+	}
+	return strings.Join(ys, ",")
+}
+
+func fragStrings(fs []text.TextFragment) []string {
+	out := make([]string, len(fs))
+	for i, f := range fs {
+		out[i] = fmt.Sprintf("%s@%s,%s", f.Text, strconv.FormatFloat(f.X, 'f', -1, 64), strconv.FormatFloat(f.Y, 'f', -1, 64))
+	}
+	return out
+}
+
+func fragText(fs []text.TextFragment) string {
+	var b strings.Builder
+	for _, f := range fs {
+		b.WriteString(f.Text)
+		b.WriteString("\n")
+	}
+	return b.String()
+}
+
+func pageText(p *model.Page) string {
+	var b strings.Builder
+	for _, el := range p.Elements {
+		switch v := el.(type) {
+		case *model.Paragraph:
+			b.WriteString(v.Text)
+		case *model.Heading:
+			b.WriteString(v.Text)
+		case *model.List:
+			for _, it := range v.Items {
+				b.WriteString(it.Text)
+				b.WriteString("\n")
+			}
+		default:
+			if te, ok := el.(model.TextElement); ok {
+				b.WriteString(te.GetText())
+			}
+		}
+		b.WriteString("\n")
+	}
+	return b.String()
+}
+
+// ---- per-page reference results (single-page extractions with the same options) -----------
+
+func flagsKey(d docParams, fl []call) string { return d.key() + "|" + callsTokens(fl) }
+
+func (e *env) refTexts(d docParams, fl []call) ([]string, bool) {
+	k := flagsKey(d, fl)
+	if r, ok := e.refT[k]; ok {
+		return r, r != nil
+	}
+	var out []string
+	for p := 1; p <= d.N; p++ {
+		x := chainExt(tabula.Open(e.path(d)), append(append([]call(nil), fl...), call{K: "P", A: []int{p}}))
+		o := runOp(x, "t")
+		if o.failed() {
+			e.c.Note("reference Text of page %d failed: %v %s", p, o.err, o.panic)
+			e.refT[k] = nil
+			return nil, false
+		}
+		out = append(out, o.text)
+	}
+	if out == nil {
+		out = []string{}
+	}
+	e.refT[k] = out
+	return out, true
+}
+
+func (e *env) refFrags(d docParams) ([][]string, bool) {
+	k := d.key()
+	if r, ok := e.refF[k]; ok {
+		return r, r != nil
+	}
+	out := [][]string{}
+	for p := 1; p <= d.N; p++ {
+		o := runOp(tabula.Open(e.path(d)).Pages(p), "g")
+		if o.failed() {
+			e.c.Note("reference Fragments of page %d failed: %v %s", p, o.err, o.panic)
+			e.refF[k] = nil
+			return nil, false
+		}
+		out = append(out, fragStrings(o.frags))
+	}
+	e.refF[k] = out
+	return out, true
+}
+
+func joinNonEmpty(ts []string) string {
+	var ne []string
+	for _, t := range ts {
+		if t != "" {
+			ne = append(ne, t)
+		}
+	}
+	return strings.Join(ne, "\n\n")
+}
+
+// the terminal operations that return no per-page text the oracles could read back
+var otherTerminals = []struct {
+	name string
+	run  func(*tabula.Extractor) error
+}{
+	{"Lines", func(x *tabula.Extractor) error { _, err := x.Lines(); return err }},
+	{"Paragraphs", func(x *tabula.Extractor) error { _, err := x.Paragraphs(); return err }},
+	{"ReadingOrder", func(x *tabula.Extractor) error { _, err := x.ReadingOrder(); return err }},
+	{"Analyze", func(x *tabula.Extractor) error { _, err := x.Analyze(); return err }},
+	{"Elements", func(x *tabula.Extractor) error { _, err := x.Elements(); return err }},
+	{"Headings", func(x *tabula.Extractor) error { _, err := x.Headings(); return err }},
+	{"Lists", func(x *tabula.Extractor) error { _, err := x.Lists(); return err }},
+	{"Blocks", func(x *tabula.Extractor) error { _, err := x.Blocks(); return err }},
+	{"ToMarkdown", func(x *tabula.Extractor) error { _, _, err := x.ToMarkdown(); return err }},
+	{"ChunksWithConfig", func(x *tabula.Extractor) error {
+		_, _, err := x.ChunksWithConfig(rag.DefaultChunkerConfig(), rag.DefaultSizeConfig())
+		return err
+	}},
+}
+
+// ---- selection cases ------------------------------------------------------------------------
+
+func allPages(n int) []int {
+	out := make([]int, n)
+	for i := range out {
+		out[i] = i + 1
+	}
+	return out
+}
+
+func eqInts(a, b []int) bool {
+	if len(a) != len(b) {
+		return false
+	}
+	for i := range a {
+		if a[i] != b[i] {
+			return false
+		}
+	}
+	return true
+}
+
+func (e *env) selCase(d docParams, cs []call) {
+	c := e.c
+	kase := map[string]interface{}{"mode": "sel", "doc": d, "calls": cs}
+	path := e.path(d)
+	n := d.N
+	sp := specOf(cs, n)
+	fl := flagsOf(cs)
+	chainStr := callsTokens(cs)
+	if chainStr != "" {
+		chainStr = " " + chainStr
+	}
+	mk := func() *tabula.Extractor { return chainExt(tabula.Open(path), cs) }
+	selectsAll := sp.mayErr && n > 0 && !eqInts(sp.pages, allPages(n))
+
+	// classify an answer: "" = fine, otherwise the oracle key that fails
+	judge := func(o outcome, okKey string, matches func() bool, isAll func() bool, emptyMayErr bool) {
+		if o.panic != "" {
+			c.Check("C10/panic", false, kase, func() string { return okKey + ": panic: " + o.panic })
+			return
+		}
+		if sp.mustErr {
+			c.Check("C10/out-of-range-error", o.err != nil, kase, func() string {
+				return fmt.Sprintf("%s: selection %q on a %d-page document names a page outside it, but no error was returned", okKey, callsTokens(cs), n)
+			})
+			return
+		}
+		if o.err != nil {
+			ok := sp.mayErr || (emptyMayErr && len(sp.pages) == 0)
+			c.Check(okKey, ok, kase, func() string {
+				return fmt.Sprintf("selection %q on a %d-page document is valid (pages %v) but failed: %v", callsTokens(cs), n, sp.pages, o.err)
+			})
+			return
+		}
+		if selectsAll && isAll() {
+			c.Check("C10/reversed-range-selects-all", false, kase, func() string {
+				return fmt.Sprintf("selection %q denotes pages %v of a %d-page document (an inverted range is empty) but every page was returned", callsTokens(cs), sp.pages, n)
+			})
+			return
+		}
+		c.Check(okKey, matches(), kase, func() string {
+			return fmt.Sprintf("selection %q on a %d-page document: result is not the ascending per-page results of pages %v", callsTokens(cs), n, sp.pages)
+		})
+	}
+
+	// Text
+	refs, refsOK := e.refTexts(d, fl)
+	ot := e.oneShot(mk(), "t", kase)
+	if refsOK {
+		var want []string
+		for _, p := range sp.pages {
+			if p >= 1 && p <= n {
+				want = append(want, refs[p-1])
+			}
+		}
+		judge(ot, "C10/selection-text",
+			func() bool {
+				return ot.text == joinNonEmpty(want) && sameToks(tokensIn(ot.text, d.Tag), expectedTokens(d, sp.pages))
+			},
+			func() bool { return sameToks(tokensIn(ot.text, d.Tag), expectedTokens(d, allPages(n))) }, false)
+		impl := "err"
+		if !ot.failed() {
+			impl = "ok " + hx.HexS(ot.text)
+		}
+		texts := "0"
+		if n > 0 {
+			texts = hx.HexList(refs)
+		}
+		c.Op("c10.text "+texts+chainStr, impl)
+	}
+
+	// Fragments
+	rf, rfOK := e.refFrags(d)
+	og := e.oneShot(mk(), "g", kase)
+	if rfOK {
+		var want []string
+		for _, p := range sp.pages {
+			if p >= 1 && p <= n {
+				want = append(want, rf[p-1]...)
+			}
+		}
+		got := fragStrings(og.frags)
+		judge(og, "C10/selection-fragments",
+			func() bool {
+				return strings.Join(got, "\x00") == strings.Join(want, "\x00") &&
+					sameToks(tokensIn(fragText(og.frags), d.Tag), expectedTokens(d, sp.pages))
+			},
+			func() bool { return sameToks(tokensIn(fragText(og.frags), d.Tag), expectedTokens(d, allPages(n))) }, false)
+		pagesField := "0"
+		if n > 0 {
+			ps := make([]string, n)
+			for i, fr := range rf {
+				if len(fr) == 0 {
+					ps[i] = "~"
+				} else {
+					hs := make([]string, len(fr))
+					for j, s := range fr {
+						hs[j] = hx.HexS(s)
+					}
+					ps[i] = strings.Join(hs, ".")
+				}
+			}
+			pagesField = strings.Join(ps, ";")
+		}
+		impl := "err"
+		if !og.failed() {
+			if len(got) == 0 {
+				impl = "ok ~"
+			} else {
+				hs := make([]string, len(got))
+				for j, s := range got {
+					hs[j] = hx.HexS(s)
+				}
+				impl = "ok " + strings.Join(hs, ".")
+			}
+		}
+		c.Op("c10.frag "+pagesField+chainStr, impl)
+	}
+	if !d.hasBlank() {
+		impl := "err"
+		if !og.failed() {
+			if ps, ok := pagesOfTokens(d, tokensIn(fragText(og.frags), d.Tag)); ok {
+				impl = "ok " + intsStr(ps)
+			} else {
+				impl = "malformed-token-stream"
+			}
+		}
+		c.Op(fmt.Sprintf("c10.psel %d%s", n, chainStr), impl)
+	}
+
+	// Document: page numbers
+	od := e.oneShot(mk(), "u", kase)
+	docNumbers := func(doc *model.Document) []int {
+		var out []int
+		for _, p := range doc.Pages {
+			out = append(out, p.Number)
+		}
+		return out
+	}
+	judge(od, "C10/page-number-true",
+		func() bool {
+			if !eqInts(docNumbers(od.doc), sp.pages) {
+				return false
+			}
+			for i, p := range od.doc.Pages {
+				if !sameToks(tokensIn(pageText(p), d.Tag), expectedTokens(d, []int{sp.pages[i]})) {
+					return false
+				}
+			}
+			return true
+		},
+		func() bool { return len(od.doc.Pages) == n }, true)
+	if !od.failed() && !sp.mustErr && od.doc != nil && !eqInts(docNumbers(od.doc), sp.pages) && len(od.doc.Pages) == len(sp.pages) {
+		c.Count("doc-number-mismatch")
+	}
+	if !d.hasBlank() {
+		impl := "err"
+		if !od.failed() {
+			var xs []string
+			for _, p := range od.doc.Pages {
+				src := "?"
+				if ps, ok := pagesOfTokens(d, tokensIn(pageText(p), d.Tag)); ok && len(ps) == 1 {
+					src = strconv.Itoa(ps[0])
+				}
+				xs = append(xs, fmt.Sprintf("%d@%s", p.Number, src))
+			}
+			impl = "ok " + strings.Join(xs, ",")
+		}
+		c.Op(fmt.Sprintf("c10.doc %d%s", n, chainStr), impl)
+	}
+
+	// Chunks: PageStart/PageEnd of every chunk is the page its text came from
+	ok2 := e.oneShot(mk(), "k", kase)
+	judge(ok2, "C10/page-number-true",
+		func() bool {
+			seen := map[int]bool{}
+			for _, ch := range ok2.chunks.Chunks {
+				ts := tokensIn(ch.Text, d.Tag)
+				for _, t := range ts {
+					if t.p != ch.Metadata.PageStart || t.p != ch.Metadata.PageEnd {
+						return false
+					}
+					seen[t.p] = true
+				}
+			}
+			for _, p := range sp.pages {
+				if !d.isBlank(p) && !seen[p] {
+					return false
+				}
+			}
+			for p := range seen {
+				if sort.SearchInts(sp.pages, p) >= len(sp.pages) || sp.pages[sort.SearchInts(sp.pages, p)] != p {
+					return false
+				}
+			}
+			return true
+		},
+		func() bool {
+			seen := map[int]bool{}
+			for _, ch := range ok2.chunks.Chunks {
+				for _, t := range tokensIn(ch.Text, d.Tag) {
+					seen[t.p] = true
+				}
+			}
+			for p := 1; p <= n; p++ {
+				if !d.isBlank(p) && !seen[p] {
+					return false
+				}
+			}
+			return true
+		}, true)
+
+	// every other terminal operation: same error rule, nothing left open
+	if e.extra%3 == 0 || len(cs) <= 1 {
+		for _, t := range otherTerminals {
+			x := mk()
+			before := fdCount()
+			var err error
+			p := hx.Safe(func() { err = t.run(x) })
+			after := fdCount()
+			name := t.name
+			if p != "" {
+				c.Check("C10/panic", false, kase, func() string { return name + ": panic: " + p })
+				runOp(x, "x")
+				continue
+			}
+			c.Check("C10/fd-leak", after == before, kase, func() string {
+				return fmt.Sprintf("one-shot terminal operation %s (error: %v): %d descriptors before, %d after", name, err, before, after)
+			})
+			if sp.mustErr {
+				c.Check("C10/out-of-range-error", err != nil, kase, func() string {
+					return fmt.Sprintf("%s: selection %q on a %d-page document names a page outside it, but no error was returned", name, callsTokens(cs), n)
+				})
+			} else if !sp.mayErr && len(sp.pages) > 0 {
+				c.Check("C10/selection-other-terminal", err == nil, kase, func() string {
+					return fmt.Sprintf("%s: valid selection %q (pages %v of %d) failed: %v", name, callsTokens(cs), sp.pages, n, err)
+				})
+			}
+		}
+		c.Count("sel:all-terminal-ops")
+	}
+	e.extra++
+
+	switch {
+	case sp.mustErr:
+		c.Count("sel:out-of-range")
+	case sp.mayErr:
+		c.Count("sel:inverted-range")
+	case !sp.explicit:
+		c.Count("sel:none")
+	default:
+		c.Count(fmt.Sprintf("sel:valid-%d-of-%d", len(sp.pages), n))
+	}
+	if len(fl) > 0 {
+		c.Count("sel:with-options")
+	}
+	c.Case("sel|"+d.key()+"|"+callsTokens(cs), !sp.mustErr && !ot.failed() && ot.text != "")
+}
+
+// ---- operation sequences on shared extractors ---------------------------------------------
+
+func stateStr(x *tabula.Extractor) (opts string, life string) {
+	s := x.VerifState()
+	ps := "-"
+	if len(s.Pages) > 0 {
+		xs := make([]string, len(s.Pages))
+		for i, p := range s.Pages {
+			xs[i] = strconv.Itoa(p)
+		}
+		ps = strings.Join(xs, ".")
+	}
+	b := func(v bool) string {
+		if v {
+			return "1"
+		}
+		return "0"
+	}
+	opts = ps + ";" + b(s.ExcludeHeaders) + b(s.ExcludeFooters) + b(s.ByColumn) + b(s.PreserveLayout) + b(s.JoinParagraphs) + ";" + b(s.HasErr)
+	life = b(s.OwnsReader) + b(s.ReaderOpened)
+	return
+}
+
+func (e *env) seqCase(d docParams, baseKind string, ops []seqOp) {
+	c := e.c
+	kase := map[string]interface{}{"mode": "seq", "doc": d, "base": baseKind, "ops": ops}
+	path := e.path(d)
+	openOK := d.Kind == "good" || d.Kind == "nopages"
+	good := d.Kind == "good"
+	fail := func(key string, detail func() string) { c.Check(key, false, kase, detail) }
+
+	baseline := fdCount()
+	var borrowed *reader.Reader
+	var base *tabula.Extractor
+	if baseKind == "r" {
+		r, err := reader.Open(path)
+		if err != nil {
+			c.Note("borrowed reader could not be opened: %v", err)
+			return
+		}
+		borrowed = r
+		base = tabula.FromReader(r)
+	} else {
+		base = tabula.Open(path)
+	}
+	exts := []*tabula.Extractor{base}
+	aborted := true // set to false when the sequence ran to its end
+	defer func() {
+		if !aborted {
+			return
+		}
+		// a panic ended the sequence early: release what is still open so that
+		// later cases start from a clean descriptor table
+		for _, x := range exts {
+			runOp(x, "x")
+		}
+		if borrowed != nil {
+			borrowed.Close()
+		}
+	}()
+	calls := [][]call{nil}
+	held := []bool{false}
+	released := []bool{false} // extractor j has run a terminal operation or Close
+	var results []string
+	opsStr := make([]string, len(ops))
+	nontrivial := false
+
+	for i, op := range ops {
+		opsStr[i] = op.token()
+		if op.E >= len(exts) {
+			results = append(results, "bad/"+strconv.Itoa(fdCount()-baseline))
+			continue
+		}
+		x := exts[op.E]
+		touched := false // some extractor other than the receiver ran a terminal op / Close earlier
+		for j, r := range released {
+			if j != op.E && r {
+				touched = true
+			}
+		}
+		// options of every extractor before the operation
+		before := make([]string, len(exts))
+		for j, y := range exts {
+			before[j], _ = stateStr(y)
+		}
+		fdBefore := fdCount()
+		var res string
+		if op.K == "d" {
+			var nx *tabula.Extractor
+			p := hx.Safe(func() { nx = applyCall(x, *op.C) })
+			if p != "" {
+				fail("C10/panic", func() string { return "derive: " + p })
+				return
+			}
+			exts = append(exts, nx)
+			calls = append(calls, append(append([]call(nil), calls[op.E]...), *op.C))
+			released = append(released, false)
+			held = append(held, false)
+			res = "-"
+		} else {
+			o := runOp(x, op.K)
+			if o.panic != "" {
+				fail("C10/panic", func() string { return fmt.Sprintf("op %s: panic: %s", op.token(), o.panic) })
+				return
+			}
+			sp := specOf(calls[op.E], d.N)
+			wantErr := !openOK && baseKind != "r"
+			if d.Kind == "nopages" {
+				wantErr = true
+			}
+			switch op.K {
+			case "x":
+				res = "closed"
+				if o.err != nil {
+					res = "err"
+					fail("C10/close-twice", func() string { return fmt.Sprintf("op %d (%s): Close returned %v", i, op.token(), o.err) })
+				}
+			case "c":
+				res = "err"
+				if o.err == nil {
+					res = "n" + strconv.Itoa(o.count)
+				}
+				if sp.mayErr {
+					// the receiver was built with an inverted range: an error is acceptable
+				} else if wantErr != (o.err != nil) || (o.err == nil && o.count != d.N) {
+					key := "C10/sequence-result"
+					if touched && o.err != nil && good {
+						key = "C10/use-after-derived-close"
+					}
+					fail(key, func() string {
+						return fmt.Sprintf("op %d (%s) of %v: PageCount = %d, %v; document has %d pages", i, op.token(), opsStr[:i+1], o.count, o.err, d.N)
+					})
+				}
+			case "m":
+				res = "err"
+				if o.err == nil {
+					res = "flag"
+				}
+				if !sp.mayErr && wantErr != (o.err != nil) {
+					key := "C10/sequence-result"
+					if touched && o.err != nil && good {
+						key = "C10/use-after-derived-close"
+					}
+					fail(key, func() string {
+						return fmt.Sprintf("op %d (%s) of %v: IsMultiColumn error = %v", i, op.token(), opsStr[:i+1], o.err)
+					})
+				}
+			default: // terminal operations
+				var got []int
+				malformed := false
+				if o.err == nil {
+					switch op.K {
+					case "t":
+						got, malformed = pagesOrMal(d, tokensIn(o.text, d.Tag))
+					case "g":
+						got, malformed = pagesOrMal(d, tokensIn(fragText(o.frags), d.Tag))
+					case "u":
+						for _, p := range o.doc.Pages {
+							got = append(got, p.Number-1)
+						}
+					case "k":
+						last := -1
+						for _, ch := range o.chunks.Chunks {
+							if ch.Metadata.PageStart != last {
+								got = append(got, ch.Metadata.PageStart-1)
+								last = ch.Metadata.PageStart
+							}
+						}
+					}
+				}
+				switch {
+				case o.err != nil:
+					res = "err"
+				case malformed:
+					res = "malformed"
+				default:
+					res = "p" + intsStr(got)
+					nontrivial = nontrivial || len(got) > 0
+				}
+				want0 := make([]int, len(sp.pages))
+				for j, p := range sp.pages {
+					want0[j] = p - 1
+				}
+				switch {
+				case wantErr || sp.mustErr:
+					if o.err == nil {
+						key := "C10/sequence-result"
+						if sp.mustErr && !wantErr {
+							key = "C10/out-of-range-error"
+						}
+						fail(key, func() string {
+							return fmt.Sprintf("op %d (%s) of %v on %s document: expected an error, got pages %v", i, op.token(), opsStr[:i+1], d.Kind, got)
+						})
+					}
+				case o.err != nil:
+					if !sp.mayErr && !(len(sp.pages) == 0 && (op.K == "u" || op.K == "k")) {
+						key := "C10/sequence-result"
+						if touched {
+							key = "C10/use-after-derived-close"
+						}
+						fail(key, func() string {
+							return fmt.Sprintf("op %d (%s) of %v: extractor with selection %q on a %d-page document failed: %v",
+								i, op.token(), opsStr[:i+1], callsTokens(calls[op.E]), d.N, o.err)
+						})
+					}
+				case !eqInts(got, want0) || malformed:
+					key := "C10/parent-changed"
+					if sp.mayErr && eqInts(got, zeroTo(d.N)) {
+						key = "C10/reversed-range-selects-all"
+					} else if op.K == "u" || op.K == "k" {
+						key = "C10/page-number-true"
+					}
+					fail(key, func() string {
+						return fmt.Sprintf("op %d (%s) of %v: extractor built by %q on a %d-page document returned page indices %v, want %v",
+							i, op.token(), opsStr[:i+1], callsTokens(calls[op.E]), d.N, got, want0)
+					})
+				}
+			}
+		}
+		fdAfter := fdCount()
+		results = append(results, res+"/"+strconv.Itoa(fdAfter-baseline))
+
+		// descriptor accounting, from the statement alone
+		delta := fdAfter - fdBefore
+		switch op.K {
+		case "d":
+			if delta != 0 {
+				fail("C10/fd-leak", func() string {
+					return fmt.Sprintf("op %d (%s): a configuration method changed the descriptor count by %d", i, op.token(), delta)
+				})
+			}
+		case "c", "m":
+			if delta > 0 {
+				held[op.E] = true
+			}
+			if delta < 0 || delta > 1 {
+				fail("C10/fd-leak", func() string { return fmt.Sprintf("op %d (%s): descriptor count changed by %d", i, op.token(), delta) })
+			}
+		default: // terminal or Close: nothing the receiver opened may stay open
+			want := 0
+			if held[op.E] {
+				want = -1
+			}
+			held[op.E] = false
+			if delta > want {
+				fail("C10/fd-leak", func() string {
+					return fmt.Sprintf("op %d (%s) of %v on %s document: descriptors before=%d after=%d (receiver held %d)", i, op.token(), opsStr[:i+1], d.Kind, fdBefore, fdAfter, -want)
+				})
+			}
+			released[op.E] = true
+		}
+		// no operation may change the configuration of another extractor
+		for j := range before {
+			if j == op.E && op.K != "d" {
+				continue
+			}
+			now, _ := stateStr(exts[j])
+			if now != before[j] {
+				jj := j
+				fail("C10/parent-changed", func() string {
+					return fmt.Sprintf("op %d (%s) of %v changed the options of extractor %d from %s to %s", i, op.token(), opsStr[:i+1], jj, before[jj], now)
+				})
+			}
+		}
+	}
+
+	aborted = false
+	// final state of every extractor
+	var dump []string
+	for _, x := range exts {
+		o, l := stateStr(x)
+		dump = append(dump, o+l)
+	}
+	pc := "x"
+	if good {
+		pc = strconv.Itoa(d.N)
+	}
+	ok := "0"
+	if openOK {
+		ok = "1"
+	}
+	c.Op(fmt.Sprintf("c10.bld %s,%s,%s %s", baseKind, ok, pc, strings.Join(opsStr, " ")),
+		strings.Join(results, " ")+" | "+strings.Join(dump, " "))
+
+	// closing everything (twice) is harmless and releases every descriptor
+	for j, x := range exts {
+		for round := 0; round < 2; round++ {
+			o := runOp(x, "x")
+			if o.failed() {
+				jj, rr := j, round
+				fail("C10/close-twice", func() string {
+					return fmt.Sprintf("after %v: Close #%d of extractor %d: %v %s", opsStr, rr+1, jj, o.err, o.panic)
+				})
+			}
+		}
+	}
+	end := fdCount()
+	wantEnd := baseline
+	if borrowed != nil {
+		wantEnd++
+	}
+	if end != wantEnd {
+		fail("C10/fd-leak", func() string {
+			return fmt.Sprintf("after %v and closing every extractor twice: %d descriptors, %d before the sequence", opsStr, end, wantEnd)
+		})
+	}
+	if borrowed != nil {
+		borrowed.Close()
+	}
+	c.Count("seq:" + d.Kind + ":" + baseKind)
+	c.Case("seq|"+d.key()+"|"+baseKind+"|"+strings.Join(opsStr, " "), nontrivial)
+}
+
+func zeroTo(n int) []int {
+	out := make([]int, n)
+	for i := range out {
+		out[i] = i
+	}
+	return out
+}
+
+func pagesOrMal(d docParams, ts []tok) ([]int, bool) {
+	ps, ok := pagesOfTokens(d, ts)
+	return ps, !ok
+}
+
+// ---- driver -------------------------------------------------------------------------------------
+
+func Run(c *hx.Ctx) {
+	c.Rep.Rule = "multi-page PDFs from an independent writer (1-9 pages, blank pages, flat or nested page tree, repeated header/footer lines, a unique token per body line); " +
+		"selections spelled as Pages/PageRange chains in any order with duplicates, overlaps, empty Pages(), inverted and out-of-range ranges, interleaved option calls; " +
+		"operation sequences (derive, PageCount, IsMultiColumn, Text, Fragments, Document, Chunks, Close, Close Close) on extractors sharing one base (Open or FromReader) over good, missing, garbage, mismatched and page-tree-less files; " +
+		"non-trivial = a successful extraction returning text of at least one page"
+	e := newEnv(c)
+	// collections happen only at settle() points between cases
+	defer debug.SetGCPercent(debug.SetGCPercent(-1))
+	// warm-up: lets the runtime create whatever descriptors it keeps (epoll etc.)
+	warm := docParams{Kind: "good", N: 2, Lines: 1, Tag: "t0"}
+	runOp(tabula.Open(e.path(warm)), "t")
+	fdCount()
+	start := fdCount()
+
+	thorough := c.Thorough()
+	// 0. corpus: minimised witnesses of past defects
+	if root := os.Getenv("VERIF_ROOT"); root != "" {
+		files, _ := filepath.Glob(filepath.Join(root, "corpus", "C10", "*.json"))
+		sort.Strings(files)
+		for _, f := range files {
+			b, err := os.ReadFile(f)
+			if err != nil {
+				continue
+			}
+			if k, ok := parseCase(b); ok {
+				e.runCase(k)
+				c.Count("corpus")
+			} else {
+				c.Note("corpus file %s is not a case", filepath.Base(f))
+			}
+		}
+	}
+	// 1. exhaustive: every ordered spelling of length <= 3 over pages 0..4 of a 3-page document
+	ex := docParams{Kind: "good", N: 3, Lines: 1, Tag: "te"}
+	vals := []int{0, 1, 2, 3, 4}
+	for a := 0; a < len(vals); a++ {
+		e.selCase(ex, []call{{K: "P", A: []int{vals[a]}}})
+		for b := 0; b < len(vals); b++ {
+			e.selCase(ex, []call{{K: "P", A: []int{vals[a], vals[b]}}})
+			e.selCase(ex, []call{{K: "P", A: []int{vals[a]}}, {K: "P", A: []int{vals[b]}}})
+			e.selCase(ex, []call{{K: "R", A: []int{vals[a], vals[b]}}})
+			if thorough {
+				for x := 0; x < len(vals); x++ {
+					e.selCase(ex, []call{{K: "P", A: []int{vals[a], vals[b], vals[x]}}})
+					e.selCase(ex, []call{{K: "R", A: []int{vals[a], vals[b]}}, {K: "P", A: []int{vals[x]}}})
+				}
+			}
+		}
+	}
+	// 2. random documents x spellings x option combinations
+	nd := c.N(300, 1500)
+	for i := 0; i < nd; i++ {
+		r := c.Rng.Fork(uint64(i))
+		d := genDoc(r, thorough)
+		if i%20 == 0 {
+			settle()
+		}
+		for j := 0; j < c.N(8, 14); j++ {
+			cs := withFlags(r, genSelCalls(r, d.N))
+			e.selCase(d, cs)
+		}
+	}
+	// 3. operation sequences on shared bases
+	ns := c.N(6000, 60000)
+	for i := 0; i < ns; i++ {
+		r := c.Rng.Fork(uint64(1_000_000 + i))
+		if i%100 == 0 {
+			settle()
+		}
+		d := docParams{Kind: "good", N: r.Range(1, 6), Lines: r.Range(1, 2), Nested: r.Chance(1, 3), Tag: fmt.Sprintf("t%x", r.Intn(1<<12))}
+		baseKind := "f"
+		switch r.Intn(12) {
+		case 0:
+			d = docParams{Kind: "missing", Lines: 1, Tag: "tm"}
+		case 1:
+			d = docParams{Kind: "garbage", Lines: 1, Tag: "tg"}
+		case 2:
+			d = docParams{Kind: "zip", Lines: 1, Tag: "tz"}
+		case 3:
+			d.Kind = "nopages"
+		case 4, 5:
+			baseKind = "r"
+		}
+		e.seqCase(d, baseKind, genSeq(r, d.N, thorough))
+	}
+	end := fdCount()
+	c.Check("C10/fd-leak", end == start || len(c.Rep.FailureCount) > 0, map[string]interface{}{"mode": "whole-run"}, func() string {
+		return fmt.Sprintf("descriptors at start of run %d, at end %d", start, end)
+	})
+}
+
+type recorded struct {
+	Mode  string    `json:"mode"`
+	Doc   docParams `json:"doc"`
+	Calls []call    `json:"calls"`
+	Base  string    `json:"base"`
+	Ops   []seqOp   `json:"ops"`
+}
+
+func parseCase(b []byte) (recorded, bool) {
+	var k recorded
+	if err := json.Unmarshal(b, &k); err != nil {
+		return k, false
+	}
+	for _, c := range k.Calls {
+		if c.K == "R" && len(c.A) != 2 {
+			return k, false
+		}
+	}
+	for _, o := range k.Ops {
+		if o.K == "d" && (o.C == nil || (o.C.K == "R" && len(o.C.A) != 2)) {
+			return k, false
+		}
+	}
+	return k, k.Mode == "sel" || k.Mode == "seq"
+}
+
+func (e *env) runCase(k recorded) {
+	switch k.Mode {
+	case "sel":
+		e.selCase(k.Doc, k.Calls)
+	case "seq":
+		if k.Base == "" {
+			k.Base = "f"
+		}
+		e.seqCase(k.Doc, k.Base, k.Ops)
+	}
+}
+
+// Replay re-runs one recorded case.
+func Replay(c *hx.Ctx, kase map[string]interface{}) {
+	b, _ := json.Marshal(kase)
+	k, ok := parseCase(b)
+	if !ok {
+		c.Note("not a replayable case: %s", string(b))
+		return
+	}
+	e := newEnv(c)
+	defer debug.SetGCPercent(debug.SetGCPercent(-1))
+	warm := docParams{Kind: "good", N: 2, Lines: 1, Tag: "t0"}
+	runOp(tabula.Open(e.path(warm)), "t")
+	settle()
+	e.runCase(k)
+}
